@@ -98,6 +98,14 @@ theorem lflight_next (c : LConfig) (m : LMove) : LFlight c → LFlight (lnext c 
               simp [PConfig.InFlight, fwRecv, hkeep, hg.1]
             · cases hp
       · exact ⟨hpl, hsb, hf⟩
+  | other x =>
+    simp only [lstep]; split
+    · exact ⟨hpl, hsb, hf⟩
+    · split
+      · cases hp : pstep c.p (.push x) with
+        | none => exact ⟨hpl, hsb, hf⟩
+        | some p' => exact ⟨plain_step hpl hp, hsb, fun hr => inFlight_step hpl (hf hr) hp⟩
+      · exact ⟨hpl, hsb, hf⟩
   | pipe m =>
     simp only [lstep]
     split
